@@ -13,7 +13,7 @@ From Flocq Require Import Core.Core IEEE754.BinarySingleNaN.
 From Coq Require Import ZArith Floats.SpecFloat Bool List String Ascii.
 Require Import Blots.Num Blots.Outcome Blots.gen.Builtins Blots.Ast Blots.NumText.
 Require Import Blots.gen.NumGrammar.
-Require Import Blots.proofs.NumText Blots.proofs.NumTextStr Blots.proofs.NumTextFloat Blots.proofs.NumTextRT Blots.proofs.NumTextRef.
+Require Import Blots.proofs.NumText Blots.proofs.NumTextStr Blots.proofs.NumTextFloat Blots.proofs.NumTextRT Blots.proofs.NumTextRef Blots.proofs.NumTextDigits.
 Import ListNotations.
 Open Scope string_scope.
 Open Scope Z_scope.
@@ -92,6 +92,14 @@ Check C16_integral_value_is_exact : forall x,
   valid_binary 53 1024 x = true -> is_finite x = true -> nfract_is_zero x = true ->
   rn_decimal (nsign x) (int_abs x) 0 = x.
 Print Assumptions C16_integral_value_is_exact.
+
+(* the `{:.0}` contract is satisfied, for every number, by the exact-integer printer ref_prec0 (the
+   reference the correspondence compares Rust's `{:.0}` text with); so in the integral branch the only
+   library fact the round trip rests on is that str::parse reads plain integers correctly *)
+Theorem C16_prec0_contract_realised : forall x, prec0_contract (ref_prec0 x) x.
+Proof. exact ref_prec0_contract. Qed.
+Check C16_prec0_contract_realised : forall x, prec0_contract (ref_prec0 x) x.
+Print Assumptions C16_prec0_contract_realised.
 
 (* a plain decimal text, with or without a leading '-', evaluates to the correctly rounded value
    of its digits with the sign applied by prefix negation *)
